@@ -40,8 +40,8 @@ CLAIMS = {
              "Every value of the 8/16-bit types in several spellings, all strings up to 4-5 symbols over {0,1,9,-,+,a,' ',non-ASCII digit} for all 12 integer types and bool, MIN/MAX +-12 neighbourhoods with extra digits/zeros/suffixes for all types (decimal-string arithmetic for 128-bit); whole-string and Parser prefix parsing incl. offsets and error position.",
              "DESIGN.md §3 C12", "harness/src/bin/c12.rs"),
     "C01": C("generated-input search with post-condition oracles (sub-range / UTF-8 / char-boundary / valid scalar) + the same corpus under Miri as UB observer",
-             "A table of every safe public item that reaches an unsafe block (slice/str slicing, byte-pattern and str functions in all pattern kinds, split/chars/slice iterators, chr, CStr, maybe_uninit, manually_drop, ptr::nonnull, array/collect/from_iter/destructure macros, Parser) is driven with edge index sets (incl. usize::MAX), five element types (incl. ZST and Drop) and constructed UTF-8; every returned slice/str must lie inside its argument, be valid UTF-8 on char boundaries; unexpected panics and harness aborts caused by std's unsafe-precondition checks are violations; a compact corpus of the same calls runs under Miri.",
-             "DESIGN.md §3 C01", "harness/src/bin/c01.rs (+ Miri)"),
+             "A table of every safe public item that reaches an unsafe block (slice/str slicing, byte-pattern and str functions in all pattern kinds, split/chars/slice iterators, chr, CStr, maybe_uninit, manually_drop, ptr::nonnull, array/collect/from_iter/destructure macros, Parser) is driven with edge index sets (incl. usize::MAX), five element types (incl. ZST and Drop) and constructed UTF-8; every returned slice/str must lie inside its argument, be valid UTF-8 on char boundaries; unexpected panics and harness aborts caused by std's unsafe-precondition checks are violations; a compact corpus of the same calls runs under Miri, and 600+ generated `const` items over 34 call templates are evaluated by rustc's const evaluator (UB = hard error) and compared with their run-time value.",
+             "DESIGN.md §3 C01, §9.2", "harness/src/bin/c01.rs (+ Miri), progs/gen_const.py"),
     "C06": C("model-based history testing vs str::split family: exhaustive strings x delimiters, all front/back histories for char delimiters",
              "All strings up to 7 chars over {a,b,é} x all &str delimiters up to 3 chars (incl. empty, overlapping) and char delimiters: split/rsplit/split_terminator/rsplit_terminator pieces compared by address with std step by step, remainder() after every step, rev() forms, and every front/back interleaving of split/rsplit for char delimiters.",
              "DESIGN.md §3 C06", "harness/src/bin/c06.rs"),
@@ -113,7 +113,7 @@ def main():
         "engines": [
             {"name": "harness", "path": "/verif/harness", "serves_properties": ["C01", "C02", "C03", "C04", "C05", "C06", "C07", "C08", "C09", "C11", "C12", "C13", "C14", "C15", "C16", "C19", "C20"],
              "kind_free_text": "Rust binaries (one per property) using proptest TestRunner + exhaustive enumerators, std or a small model as oracle; c01/c11 also run under Miri"},
-            {"name": "progs", "path": "/verif/progs", "serves_properties": ["C10", "C11", "C15", "C17", "C18", "C19", "C20"],
+            {"name": "progs", "path": "/verif/progs", "serves_properties": ["C01", "C10", "C11", "C15", "C17", "C18", "C19", "C20"],
              "kind_free_text": "python3 grammar-based program generators + driver: generated Rust is compiled from /repo's tree by cargo/rustc and executed (or must fail to compile); descriptors shrink by batch delta debugging"},
         ],
         "checks": checks,
